@@ -46,6 +46,8 @@ fixed("F37", "C04", "c526c1f", "C04.occurs|arm|Ref", "same defect, Ref component
 for _p in ("C03", "C04"):
     fixed("F38", _p, "3143cfd", "C03.admission|anchor|EscapeOutsideCode", "`#stage(macro) fn f(x){ $x }`: an escape at stage 0 was accepted by the type checker (the stage saturates at 0), translate_stage0 left it in place and the MIR generator panicked in unreachable!(\"Macro code should be expanded before mirgen\") (findings/repro/F38_*.mmm)")
 fixed("F38", "C03", "3143cfd", "C03.belief|eliminated|Escape|compiler::translate_staging::translate_stage0", "same defect seen from the elimination table: the stage-0 arm for Escape hands the node back unchanged")
+fixed("F39", "C04", "8a6ba5d", "C04.chain-walk|walk|compiler::typing::InferContext::resolve_type_alias|recursion|type_aliases", "`type alias A = B  type alias B = A  fn f(x:A){x}`: the cycle was detected and recorded, but the aliases were registered anyway and resolving the annotation recursed until the stack overflowed (both back ends); cyclic aliases are no longer registered (findings/repro/F39_*.mmm)")
+fixed("F39", "C04", "8a6ba5d", "C04.chain-walk|walk|compiler::typing::InferContext::type_references_name|recursion|type_aliases", "same defect, second walker over the alias map")
 fixed("F21", "C01", "52a554f", "C01.ops|truthiness|JmpIfNeg|F64Const+F64Gt", "`if` on a NaN condition took the then-branch on the VM (cond <= 0.0 test) and the else-branch on WASM (cond > 0.0)")
 
 # ---- C01 operator templates ---------------------------------------------------------------------------
